@@ -130,6 +130,25 @@ class ExprGen:
                          "{\"a\": 1}```", "~~~\n[1]\n~~~", "<json>[1]</json>", "[1]\n```"])
 
 
+def _child_many(texts, q, cur, ndone):
+    """Evaluates every text on a fresh engine (auto-detected pathway); progress through shared memory."""
+    import resource as _resource
+    try:
+        _resource.setrlimit(_resource.RLIMIT_AS, (3 << 30, 3 << 30))
+    except Exception:
+        pass
+    from operon_ai.organelles.mitochondria import Mitochondria
+    for i, t in enumerate(texts):
+        cur.value = i
+        try:
+            r = Mitochondria(silent=True, timeout_seconds=0.5).metabolize(t)
+            if not hasattr(r, "success"):
+                q.put((i, "returned something that is not a result"))
+        except BaseException as e:  # noqa
+            q.put((i, f"raised {type(e).__name__}: {str(e)[:60]}"))
+        ndone.value = i + 1
+
+
 def _child(expr, pathway, q):
     sys.stdout = open(os.devnull, "w")
     from operon_ai.organelles.mitochondria import Mitochondria, MetabolicPathway
@@ -631,6 +650,87 @@ class C01(Check):
                     self.violations.append(Violation("C01/process-died", f"metabolize({expr!r}) killed the interpreter (exit {r[1]})",
                                                      case={"expr": expr, "pathway": pw, "tools": [], "allowed": None, "silent": True}))
         self.extra_cov["resource_stream"] = results
+        # 6. short texts built by REPEATING one character after a small prefix (the shapes on which a text scanner - a
+        #    regular expression, a hand-written tokenizer - goes super-linear): all in one child process, each with its
+        #    own time budget; the parent knows from the progress messages which input did not come back
+        chars = list("\\'\"([{ a0.-+*/%<>=!,:_#\t\n&|~^@$;?")
+        prefixes = ["", "'", '"', "(", "1 ", "f(", "true and '", "not \"", "[", "1 if "]
+        reps = [48] if self.tier == "quick" else [30, 48, 64, 200]
+        suffixes = ["", "!"] if self.tier == "quick" else ["", "!", "'", ")", " 1"]
+        texts = [pre + ch * n + suf for pre in prefixes for ch in chars for n in reps for suf in suffixes]
+        cur = ctx.Value("i", -1)          # shared memory: the index being evaluated (a queue message can lag behind a
+        ndone = ctx.Value("i", 0)         # child that is stuck inside a C-level scan holding the GIL)
+        q = ctx.Queue()
+        pr = ctx.Process(target=_child_many, args=(texts, q, cur, ndone), daemon=True)
+        pr.start()
+        stuck, budget = None, 3.0
+        last, t_last = -1, time.time()
+        while pr.is_alive():
+            pr.join(0.1)
+            c = cur.value
+            if c != last:
+                last, t_last = c, time.time()
+            elif time.time() - t_last > budget and pr.is_alive():
+                stuck = c
+                break
+        if pr.is_alive():
+            pr.kill()
+        pr.join()
+        done = ndone.value
+        while True:
+            try:
+                msg = q.get(timeout=0.2)
+            except Exception:
+                break
+            self.violations.append(Violation(
+                "C01/raises", f"metabolize({texts[msg[0]]!r}) {msg[1]}",
+                case={"expr": texts[msg[0]], "pathway": None, "tools": [], "allowed": None, "silent": True}))
+            break
+        if stuck is None and done < len(texts) and not self.violations:
+            stuck = cur.value            # the child died without finishing
+        if stuck is not None and 0 <= stuck < len(texts):
+            self.violations.append(Violation(
+                "C01/hang", f"metabolize({texts[stuck]!r}) (a {len(texts[stuck])}-character text) with timeout_seconds=0.5 had "
+                f"not returned after {budget}s", case={"expr": texts[stuck], "pathway": None, "tools": [], "allowed": None,
+                                                        "silent": True, "child_process": True}))
+        self.extra_cov["repetition_texts"] = {"texts": len(texts), "returned": done}
+        # 7. configuration changed on a LIVE engine: every public numeric / boolean attribute assigned every value of its
+        #    own kind (zero, negative, non-finite, tiny, huge, bool for number), then every entry point: never raises
+        n_cfg = 0
+        numbers = [0, 0.0, False, True, -1, -0.0, float("nan"), float("inf"), -float("inf"), 1e-320, 1e308, 10 ** 30]
+        proto = Mitochondria(silent=True)
+        attrs = [k for k, v in vars(proto).items() if not k.startswith("_") and isinstance(v, (int, float, bool))]
+        for attr in attrs:
+            kind_bool = isinstance(getattr(proto, attr), bool)
+            for v in ([False, True, 0, 1] if kind_bool else numbers):
+                m = Mitochondria(silent=True)
+                m.engulf_tool(SimpleTool(name="tt", description="", func=lambda *a, **k: 7))
+                step = "construct"
+                try:
+                    with contextlib.redirect_stdout(io.StringIO()):
+                        m.metabolize("1 + 1")
+                        setattr(m, attr, v)
+                        for e in ("1 + 1", "tt()", "1 +", "1 < 2", "[1]", "2 ** 10", "1 / 0", "not 1"):
+                            for pw in (None, "math", "logic", "tools"):
+                                step = f"metabolize({e!r}, pathway={pw!r})"
+                                r = m.metabolize(e) if pw is None else m.metabolize(e, pathway=pw)
+                                if not hasattr(r, "success"):
+                                    raise TypeError("not a result object")
+                        step = "digest_glucose('2 * 3')"
+                        m.digest_glucose("2 * 3")
+                        step = "execute_tool_call"
+                        m.execute_tool_call(ToolCall(id="1", name="tt", arguments={}))
+                        step = "get_statistics"
+                        m.get_statistics()
+                except BaseException as ex:  # noqa
+                    self.violations.append(Violation(
+                        "C01/raises", f"live engine with {attr} = {v!r} assigned after construction: {step} raised "
+                        f"{type(ex).__name__}: {str(ex)[:80]}",
+                        case={"reconfig_probe": [attr, repr(v)], "expr": "1 + 1", "pathway": None, "tools": [],
+                              "allowed": None, "silent": True}))
+                    break
+                n_cfg += 1
+        self.extra_cov["live_reconfiguration_probes"] = {"attributes": attrs, "assignments": n_cfg}
 
     def shrink(self, case, pred):
         return case
